@@ -22,6 +22,8 @@ import (
 
 // engine mvcc: one goroutine drives a real Nitro instance (see PROTOCOL.md).
 type mvccEngine struct {
+	links     bool // links=1: live nodes are chained in an application-side NodeList
+	nl        *nitro.NodeList
 	db        *nitro.Nitro
 	kv        bool
 	varkeys   bool // cmp=plainv: keys of 1..10 bytes under the default comparator
@@ -252,6 +254,10 @@ func (e *mvccEngine) step(toks []string) string {
 			e.delta = true
 		}
 		e.nw = nw
+		if l, ok := argOf(toks, "links"); ok && l == "1" {
+			e.links = true
+			e.nl = nitro.NewNodeList(nil)
+		}
 		nitro.VerifHook = func(point int, obj unsafe.Pointer) {
 			// only the instance under test counts (scratch instances of the backup ops have no workers)
 			switch nitroPoint[point] {
@@ -315,12 +321,28 @@ func (e *mvccEngine) step(toks []string) string {
 		if !e.kv {
 			v = 0
 		}
-		return fmt.Sprint(w.Put2(e.item(k, v)) != nil)
+		n := w.Put2(e.item(k, v))
+		if n != nil && e.links {
+			// the application chains the nodes it owns through their link field (nitro.NodeList), as the node table
+			// of an index does
+			e.nl.Add(n)
+		}
+		return fmt.Sprint(n != nil)
 	case "del":
 		w := wr()
 		k, ok := num(2)
 		if w == nil || !ok || len(toks) != 3 {
 			return "bad-op"
+		}
+		if e.links {
+			// lookup, removal from the application's chain (which leaves the node's own link pointing into the rest
+			// of the chain), then DeleteNode: the same answers as Delete
+			n := w.GetNode(e.item(k, 0))
+			if n == nil {
+				return "false"
+			}
+			e.nl.Remove((*nitro.Item)(n.Item()).Bytes())
+			return fmt.Sprint(w.DeleteNode(n))
 		}
 		return fmt.Sprint(w.Delete(e.item(k, 0)))
 	case "get":
@@ -356,6 +378,20 @@ func (e *mvccEngine) step(toks []string) string {
 		n := e.handles[toks[2]]
 		if n == nil {
 			return "bad-op"
+		}
+		if e.links {
+			// the application takes the node out of its own chain (by identity) before it gives it up
+			var prev *skiplist.Node
+			for c := e.nl.Head(); c != nil; prev, c = c, c.GetLink() {
+				if c == n {
+					if prev == nil {
+						e.nl = nitro.NewNodeList(c.GetLink())
+					} else {
+						prev.SetLink(c.GetLink())
+					}
+					break
+				}
+			}
 		}
 		return fmt.Sprint(w.DeleteNode(n))
 	case "snap":
